@@ -1290,6 +1290,28 @@ def gen_cases(prop, tier, seed):
                     probe = {cid: client_script(rng, cid, new, mods) for cid in rng.sample([1, 2, 5, 7], 2)}
                     probe = {cid: [e for e in ev if not (e[0] == "reply" and e[4] not in ("cur", "stale"))] for cid, ev in probe.items()}
                     pops = render_schedule(rng, probe) + [inl("-1 ? :config")]
+            if i % 6 == 1:
+                # a reload that touches only the services while a rule of the *other* module names one of
+                # them: whatever that module remembered about the service table while serving an earlier
+                # client (seeded change C17-5 cached the slot number) must not outlive the table
+                mods = "class"
+                names = rng.sample(["alpha.srv", "beta.srv", "gamma.srv", "delta.srv"], 3)
+                a_, b_, g_ = names
+                mk = lambda ns: Cfg(timeout=0, services=[(n_, "dronecheck") for n_ in ns],
+                                    rules=[("a", [("class", "members"), ("xreply_ok", a_)]), ("z", [("class", "users")])])
+                old = mk([a_, b_])
+                chain = [mk([b_, g_])] + ([mk([a_, b_, g_])] if rng.random() < 0.5 else [])
+                new = chain[-1]
+                data = [("line", "N host.example"), ("line", "u ident"), ("line", "n nick"), ("line", "U user :real name")]
+                pev = [("C", "10.9.9.9", "999")] + data + [("reply", "X", a_, "OK", "cur"), ("reply", "X", b_, "OK", "cur"), ("line", "H")]
+                pre = render_schedule(rng, {9: pev})
+                probe = {}
+                for cid in rng.sample([1, 2, 5, 7], 2):
+                    ev = [("C", rng.choice(CADDRS), "1234")] + data
+                    for n_, _t in new.services:
+                        ev.append(("reply", "x", n_, "unlinked", "cur") if rng.random() < 0.4 else ("reply", "X", n_, "OK", "cur"))
+                    probe[cid] = ev + [("line", "H")]
+                pops = render_schedule(rng, probe) + [inl("-1 ? :config")]
             cases.append(Case("c17/%d/reload" % i, header(mods, old) + pre + [c.op("reload") for c in chain] + pops + ["eof"],
                               tags={"group": "c17/%d" % i, "role": "reload", "mods": mods, "nreload": len(chain) + len(pre)}))
             cases.append(Case("c17/%d/fresh" % i, header(mods, new) + pops + ["eof"],
